@@ -21,6 +21,7 @@ package main
 
 import (
 	"bytes"
+	"context"
 	"encoding/json"
 	"fmt"
 	"io/ioutil"
@@ -34,9 +35,12 @@ import (
 	"unicode/utf8"
 
 	"github.com/ghodss/yaml"
+	"mosn.io/api"
 	v2 "mosn.io/mosn/pkg/config/v2"
 	"mosn.io/mosn/pkg/configmanager"
 	"mosn.io/mosn/pkg/log"
+	"mosn.io/mosn/pkg/types"
+	"mosn.io/mosn/pkg/upstream/cluster"
 
 	. "vh/vhlib"
 )
@@ -1311,6 +1315,12 @@ func effHistories(run *Run, r *Rng, tmp string, custom map[reflect.Type]bool) {
 			sh = run.NewShard(header, "eff_case", "eff_mismatches")
 		}
 	}
+	// host updates through the REAL cluster manager (UpdateClusterHosts -> refreshHostsConfig -> SetHosts with the hosts
+	// rebuilt by Host.Config(): MetaDataConfig nil, labels in MetaData): a second / third update changes ONE aspect
+	// (labels only, weight only, hostname only, tls_disable only, address only, order only, one host more / less, nothing).
+	// After every call the effective config must hold the hosts of the live cluster snapshot, field by field; at the
+	// end the persisted form is reloaded and compared with the live hosts too; the history is a correspondence case.
+	hostVariation(run, r, func() *Shard { return run.NewShard(header, "eff_case", "eff_mismatches") }, pv)
 	// the initialisation of loaded configurations, setter by setter (what initEffective does), in inline mode
 	for i := 0; i < run.N(14, 200); i++ {
 		path := filepath.Join(tmp, fmt.Sprintf("gen%d.json", i))
@@ -1556,4 +1566,211 @@ func treeDiff(p string, x, y interface{}) string {
 		return p
 	}
 	return ""
+}
+
+// ---------------------------------------------------------------------------------------------------------------
+// SetHosts as the cluster manager calls it
+
+func cloneHosts(hs []v2.Host) []v2.Host {
+	out := make([]v2.Host, len(hs))
+	for i, h := range hs {
+		out[i] = h
+		if h.MetaData != nil {
+			m := api.Metadata{}
+			for k, v := range h.MetaData {
+				m[k] = v
+			}
+			out[i].MetaData = m
+		}
+	}
+	return out
+}
+
+func sameMeta(a, b api.Metadata) bool {
+	if len(a) != len(b) {
+		return false
+	}
+	for k, v := range a {
+		if w, ok := b[k]; !ok || w != v {
+			return false
+		}
+	}
+	return true
+}
+
+// hostsDiff: the first aspect in which `got` differs from `want` ("" if none)
+func hostsDiff(want, got []v2.Host) string {
+	if len(want) != len(got) {
+		return "count"
+	}
+	addrs := func(l []v2.Host) []string {
+		var a []string
+		for _, h := range l {
+			a = append(a, h.Address)
+		}
+		return a
+	}
+	wa, ga := addrs(want), addrs(got)
+	if strings.Join(wa, ",") != strings.Join(ga, ",") {
+		sort.Strings(wa)
+		sort.Strings(ga)
+		if strings.Join(wa, ",") == strings.Join(ga, ",") {
+			return "order"
+		}
+		return "address"
+	}
+	for i := range want {
+		switch {
+		case want[i].Hostname != got[i].Hostname:
+			return "hostname"
+		case want[i].Weight != got[i].Weight:
+			return "weight"
+		case want[i].TLSDisable != got[i].TLSDisable:
+			return "tls_disable"
+		case !sameMeta(want[i].MetaData, got[i].MetaData):
+			return "metadata"
+		}
+	}
+	return ""
+}
+
+func hostVariation(run *Run, r *Rng, newShard func() *Shard, pv func(reflect.Value) string) {
+	sh := newShard()
+	defer func() { sh.Close() }()
+	kinds := []string{"metadata", "metadata-drop", "metadata-add", "weight", "hostname", "tls_disable", "address", "order", "more", "less", "none"}
+	for h := 0; h < run.N(22, 300); h++ {
+		configmanager.SetMosnConfig(&v2.MOSNConfig{})
+		configmanager.Reset()
+		cm := cluster.NewClusterManagerSingleton(nil, nil, nil)
+		name := fmt.Sprintf("c%d", r.Intn(3))
+		live := func() []v2.Host {
+			var out []v2.Host
+			if snap := cm.GetClusterSnapshot(context.Background(), name); snap != nil {
+				snap.HostSet().Range(func(x types.Host) bool {
+					out = append(out, x.Config())
+					return true
+				})
+			}
+			if out == nil {
+				out = []v2.Host{}
+			}
+			return out
+		}
+		effHosts := func() []v2.Host {
+			m := confField("Cluster")
+			if !m.IsValid() || m.Kind() != reflect.Map {
+				return nil
+			}
+			e := m.MapIndex(reflect.ValueOf(name))
+			if !e.IsValid() {
+				return nil
+			}
+			return e.Interface().(v2.Cluster).Hosts
+		}
+		var ops, names []string
+		failed := false
+		step := func(what string) {
+			lv := live()
+			ops = append(ops, "OSetHosts "+coqStr(name)+" "+pv(reflect.ValueOf(&lv).Elem()))
+			names = append(names, what)
+			if d := hostsDiff(lv, effHosts()); d != "" && !failed {
+				failed = true
+				run.Fail("eff:sethosts:update-dropped:"+d, "after "+what+" through the cluster manager the effective config does not hold the hosts of the live cluster snapshot: "+d+" differs",
+					map[string]interface{}{"history": names, "live": lv, "effective": effHosts()})
+			}
+		}
+		c := v2.Cluster{Name: name, ClusterType: v2.SIMPLE_CLUSTER, LbType: v2.LB_RANDOM}
+		ops = append(ops, "OSetCluster "+pv(reflect.ValueOf(&c).Elem()))
+		if err := cm.AddOrUpdatePrimaryCluster(c); err != nil {
+			cm.(interface{ Destroy() }).Destroy()
+			continue
+		}
+		step("AddOrUpdatePrimaryCluster")
+		var hs []v2.Host
+		for i, n := 0, 1+r.Intn(3); i < n; i++ {
+			hc := v2.Host{HostConfig: v2.HostConfig{Address: fmt.Sprintf("127.0.0.1:%d", 20000+h*10+i), Weight: uint32(1 + r.Intn(100)), TLSDisable: r.Pct(30)}}
+			if r.Pct(50) {
+				hc.Hostname = fmt.Sprintf("h%d", i)
+			}
+			if r.Pct(70) {
+				hc.MetaData = api.Metadata{"zone": fmt.Sprintf("z%d", r.Intn(3))}
+				if r.Pct(40) {
+					hc.MetaData["version"] = fmt.Sprintf("v%d", r.Intn(3))
+				}
+			}
+			hs = append(hs, hc)
+		}
+		cm.UpdateClusterHosts(name, cloneHosts(hs))
+		step("UpdateClusterHosts")
+		for k, n := 0, 1+r.Intn(2); k < n; k++ {
+			kind := kinds[(h+k*5)%len(kinds)]
+			hs = cloneHosts(hs)
+			i := r.Intn(len(hs))
+			switch kind {
+			case "metadata":
+				if hs[i].MetaData == nil {
+					hs[i].MetaData = api.Metadata{}
+				}
+				hs[i].MetaData["zone"] = fmt.Sprintf("relabelled%d", k)
+			case "metadata-drop":
+				hs[i].MetaData = nil
+			case "metadata-add":
+				if hs[i].MetaData == nil {
+					hs[i].MetaData = api.Metadata{}
+				}
+				hs[i].MetaData[fmt.Sprintf("extra%d", k)] = "x"
+			case "weight":
+				hs[i].Weight = hs[i].Weight%100 + 1
+			case "hostname":
+				hs[i].Hostname = hs[i].Hostname + "x"
+			case "tls_disable":
+				hs[i].TLSDisable = !hs[i].TLSDisable
+			case "address":
+				hs[i].Address = fmt.Sprintf("127.0.0.1:%d", 40000+h*10+k)
+			case "order":
+				if len(hs) > 1 {
+					hs[0], hs[len(hs)-1] = hs[len(hs)-1], hs[0]
+				}
+			case "more":
+				hs = append(hs, v2.Host{HostConfig: v2.HostConfig{Address: fmt.Sprintf("127.0.0.1:%d", 50000+h*10+k), Weight: 1}, MetaData: api.Metadata{"zone": "new"}})
+			case "less":
+				if len(hs) > 1 {
+					hs = hs[:len(hs)-1]
+				}
+			}
+			cm.UpdateClusterHosts(name, cloneHosts(hs))
+			step("UpdateClusterHosts:" + kind)
+			run.Sum.Distribution["eff-hosts-variation:"+kind]++
+		}
+		lv := live()
+		state := pv(confValue())
+		dump, err := configmanager.VerifTransferConfig()
+		cm.(interface{ Destroy() }).Destroy()
+		if err != nil {
+			run.Sum.Distribution["eff:transfer-error"]++
+			continue
+		}
+		// the persisted form, reloaded: the hosts a restart would start from
+		back := &v2.MOSNConfig{}
+		if err := json.Unmarshal(dump, back); err == nil && !failed {
+			for _, cl := range back.ClusterManager.Clusters {
+				if cl.Name == name {
+					if d := hostsDiff(lv, cl.Hosts); d != "" {
+						run.Fail("eff:sethosts:reload-differs-from-live:"+d, "the persisted configuration, reloaded, does not hold the hosts of the live cluster snapshot: "+d+" differs",
+							map[string]interface{}{"history": names, "live": lv, "reloaded": cl.Hosts})
+					}
+				}
+			}
+		}
+		dj, err := sortedTransfer(dump)
+		if err != nil {
+			continue
+		}
+		sh.Add(fmt.Sprintf("(mkEffCase [%s] %s %s false)", strings.Join(wrapAll(ops), "; "), state, dj), map[string]interface{}{"kind": "eff-hosts-variation", "ops": names})
+		run.Sum.Distribution["model:eff-hosts-variation"]++
+		if sh.Len() >= 8 {
+			sh.Close()
+			sh = newShard()
+		}
+	}
 }
